@@ -82,44 +82,68 @@ def pushQuiescent (j : PushJ) : PushJ :=
 def notExecuted (outs : List Out) : Bool :=
   outs.any (fun o => match o with | .other _ => true | _ => false)
 
+def isDone : Out → Bool
+  | .done .. => true
+  | _ => false
+
+def isBlocked : Out → Bool
+  | .blocked _ => true
+  | _ => false
+
+def isDoneOf (a : Nat) : Out → Bool
+  | .done a' _ _ _ => a' == a
+  | _ => false
+
+/-- bookkeeping caused by the event itself -/
+def pushPre (j : PushJ) (ev : Ev) (outs : List Out) : PushJ × Option (Nat × WMsg) :=
+  match ev with
+  | .send _ a m mode =>
+    match mode with
+    | .nb => (j, some (a, m))
+    | _ => ({ j with pending := j.pending ++ [(a, m)] }, none)
+  | .setopt c name ty v =>
+    if c.isNone && name == "send-buffer" && ty == "int" && outs.contains (.rv 0) then
+      let c := v.toNat
+      ({ j with cap := c,
+                unsent := if c < j.cap then j.unsent.map (fun a => { a with shrinkSince := true }) else j.unsent }, none)
+    else (j, none)
+  | .sendDone p rv =>
+    if outs.contains (.rv 0) && rv == 0 && j.busy.contains p then
+      ({ j with busy := j.busy.filter (· != p), idle := j.idle ++ [p] }, none)
+    else (j, none)
+  | .close => ({ j with closed := true, unsent := j.unsent.map (fun a => { a with shrinkSince := true }) }, none)
+  | _ => (j, none)
+
+/-- a newly connected compatible peer becomes idle before anything is sent on it -/
+def newPipeStep (outs : List Out) (j : PushJ) (o : Out) : PushJ :=
+  match o with
+  | .pipe p => if p ≥ 0 && !(outs.contains (.pclosed p.toNat)) then { j with idle := j.idle ++ [p.toNat] } else j
+  | _ => j
+
+def pushNewPipes (outs : List Out) (j : PushJ) : PushJ := outs.foldl (newPipeStep outs) j
+
+/-- end-of-step checks -/
+def pushPost (nb : Option (Nat × WMsg)) (outs : List Out) (j : PushJ) : PushJ :=
+  -- a non-blocking send must have completed in its own step
+  let j := match nb with
+    | some (a, _) => if outs.any (isDoneOf a) then j
+                     else j.fail s!"non-blocking send {a} did not complete at once"
+    | none => j
+  let j := if outs.any isBlocked then j.fail "a non-blocking call blocked" else j
+  pushQuiescent j
+
 def pushStep (j : PushJ) (ev : Ev) (outs : List Out) : PushJ :=
   if j.err.isSome then j else
   if notExecuted outs then j else   -- the harness refused the line (no socket, aio in use): nothing happened
-  -- bookkeeping caused by the event itself
-  let (j, nb) : PushJ × Option (Nat × WMsg) :=
-    match ev with
-    | .send _ a m mode =>
-      match mode with
-      | .nb => (j, some (a, m))
-      | _ => ({ j with pending := j.pending ++ [(a, m)] }, none)
-    | .setopt none "send-buffer" "int" v =>
-      if outs.contains (.rv 0) then
-        let c := v.toNat
-        ({ j with cap := c,
-                  unsent := if c < j.cap then j.unsent.map (fun a => { a with shrinkSince := true }) else j.unsent }, none)
-      else (j, none)
-    | .sendDone p rv =>
-      if outs.contains (.rv 0) && rv == 0 && j.busy.contains p then
-        ({ j with busy := j.busy.filter (· != p), idle := j.idle ++ [p] }, none)
-      else (j, none)
-    | .close => ({ j with closed := true, unsent := j.unsent.map (fun a => { a with shrinkSince := true }) }, none)
-    | _ => (j, none)
-  -- a newly connected compatible peer becomes idle before anything is sent on it
-  let j := outs.foldl (fun j o => match o with
-    | .pipe p => if p ≥ 0 && !(outs.contains (.pclosed p.toNat)) then { j with idle := j.idle ++ [p.toNat] } else j
-    | _ => j) j
+  match ev with
+  | .recv .. => j                   -- a receive on a PUSH socket (NNG_ENOTSUP) is not a C06 matter
+  | _ =>
+  let (j, nb) := pushPre j ev outs
+  let j := pushNewPipes outs j
   -- completions first (a message must be accepted before it is wired), then the rest
-  let dones := outs.filter (fun o => match o with | .done .. => true | _ => false)
-  let rest := outs.filter (fun o => match o with | .done .. => false | _ => true)
-  let j := dones.foldl (pushOut nb) j
-  let j := rest.foldl (pushOut nb) j
-  -- a non-blocking send must have completed in its own step
-  let j := match nb with
-    | some (a, _) => if dones.any (fun o => match o with | .done a' _ _ _ => a' == a | _ => false) then j
-                     else j.fail s!"non-blocking send {a} did not complete at once"
-    | none => j
-  let j := if outs.any (fun o => match o with | .blocked _ => true | _ => false) then j.fail "a non-blocking call blocked" else j
-  pushQuiescent j
+  let j := (outs.filter isDone).foldl (pushOut nb) j
+  let j := (outs.filter (fun o => !isDone o)).foldl (pushOut nb) j
+  pushPost nb outs j
 
 def pushJudge (tr : List (Ev × List Out)) : Option String :=
   (tr.foldl (fun j x => pushStep j x.1 x.2) ({} : PushJ)).err
@@ -167,37 +191,45 @@ def pullOut (nbRecv : Option Nat) (j : PullJ) (o : Out) : PullJ :=
     { j with armed := j.armed.filter (· != p), held := j.held.filter (·.1 != p), closedPipes := j.closedPipes ++ [p] }
   | _ => j
 
-def pullStep (j : PullJ) (ev : Ev) (outs : List Out) : PullJ :=
-  if j.err.isSome then j else
-  if PipelineSpec.notExecuted outs then j else
-  let (j, nb) : PullJ × Option Nat :=
-    match ev with
-    | .recv _ a mode =>
-      match mode with
-      | .nb => (j, some a)
-      | _ => ({ j with waiting := j.waiting ++ [a] }, none)
-    | .recvDone p (.ok b) =>
-      if outs.contains (.rv 0) then
-        if !(j.armed.contains p) then (j.fail s!"pipe {p} accepted a message with no receive armed", none)
-        else ({ j with armed := j.armed.filter (· != p), held := j.held ++ [(p, ⟨[], b⟩)] }, none)
-      else (j, none)
-    | .recvDone p (.error _) =>
-      if outs.contains (.rv 0) then ({ j with armed := j.armed.filter (· != p) }, none) else (j, none)
-    | .close => ({ j with closed := true }, none)
-    | _ => (j, none)
-  let dones := outs.filter (fun o => match o with | .done .. => true | _ => false)
-  let rest := outs.filter (fun o => match o with | .done .. => false | _ => true)
-  let j := dones.foldl (pullOut nb) j
-  let j := rest.foldl (pullOut nb) j
+/-- bookkeeping caused by the event itself -/
+def pullPre (j : PullJ) (ev : Ev) (outs : List Out) : PullJ × Option Nat :=
+  match ev with
+  | .recv _ a mode =>
+    match mode with
+    | .nb => (j, some a)
+    | _ => ({ j with waiting := j.waiting ++ [a] }, none)
+  | .recvDone p (.ok b) =>
+    if outs.contains (.rv 0) then
+      if !(j.armed.contains p) then (j.fail s!"pipe {p} accepted a message with no receive armed", none)
+      else ({ j with armed := j.armed.filter (· != p), held := j.held ++ [(p, ⟨[], b⟩)] }, none)
+    else (j, none)
+  | .recvDone p (.error _) =>
+    if outs.contains (.rv 0) then ({ j with armed := j.armed.filter (· != p) }, none) else (j, none)
+  | .close => ({ j with closed := true }, none)
+  | _ => (j, none)
+
+/-- end-of-step checks -/
+def pullPost (nb : Option Nat) (outs : List Out) (j : PullJ) : PullJ :=
   let j := match nb with
-    | some a => if dones.any (fun o => match o with | .done a' _ _ _ => a' == a | _ => false) then j
+    | some a => if outs.any (isDoneOf a) then j
                 else j.fail s!"non-blocking receive {a} did not complete at once"
     | none => j
-  let j := if outs.any (fun o => match o with | .blocked _ => true | _ => false) then j.fail "a non-blocking call blocked" else j
+  let j := if outs.any isBlocked then j.fail "a non-blocking call blocked" else j
   -- quiescent: a waiting receiver and an undelivered message never coexist
   if !j.closed && !j.waiting.isEmpty && !j.held.isEmpty then
     j.fail "a receiver is kept waiting although a message has arrived"
   else j
+
+def pullStep (j : PullJ) (ev : Ev) (outs : List Out) : PullJ :=
+  if j.err.isSome then j else
+  if notExecuted outs then j else
+  match ev with
+  | .send .. => j                   -- a send on a PULL socket (NNG_ENOTSUP) is not a C06 matter
+  | _ =>
+  let (j, nb) := pullPre j ev outs
+  let j := (outs.filter isDone).foldl (pullOut nb) j
+  let j := (outs.filter (fun o => !isDone o)).foldl (pullOut nb) j
+  pullPost nb outs j
 
 def pullJudge (tr : List (Ev × List Out)) : Option String :=
   (tr.foldl (fun j x => pullStep j x.1 x.2) ({} : PullJ)).err
